@@ -1,6 +1,7 @@
 import Props.C13
 import Props.C13b
 import Props.C13c
+import Props.C13d
 #print axioms C13.codes_valid
 #print axioms C13.rgbToYuv_total
 #print axioms C13.yuvToRgb_total
@@ -11,3 +12,7 @@ import Props.C13c
 #print axioms C18.curve_total
 #print axioms C13.curves_finite
 #print axioms C13.rgbToLinear_finite
+#print axioms C13.linearToXyb_finite
+#print axioms C13.xybToLinear_finite
+#print axioms C13.linearToHsl_finite
+#print axioms C13.yuvToRgb_finite
